@@ -21,6 +21,35 @@ def tcfg(name, nblk=2400):
     return p
 
 
+def thread_lifetime_accounting(v, n, rounds, sd, prefix="threads-end"):
+    """one recorded run of real threads that end (plain build): the heap / hand-over / exit events are validated against module
+    Threads with DrainOnExit - a block left in the cache of a thread that has ended is never released.  Used by C15 as well.
+    Returns (events validated, 1 if accepted else 0)."""
+    exe = vlib.build_harness("threads_drive", "plain")
+    args = [str(n), str(rounds), str(sd % 100000)]
+    p = vlib.sh([exe, "trace"] + args, timeout=300)
+    lines = p.stdout.splitlines()
+    if p.returncode == 3:
+        raise Infra("thread driver ran out of its own resources: %s" % p.stderr[-300:])
+    if p.returncode != 0 or "DONE" not in lines:
+        v.violation("%s/crash/n=%d" % (prefix, n), "threaded run died rc=%s: %s" % (p.returncode, p.stderr[-800:]), {"args": args})
+        return 0, 0
+    ev = [l for l in lines if l.startswith("{")]
+    path = os.path.join(vlib.BUILD, "thtrace_lt_%d_%d_%d.ndjson" % (n, sd % 100000, os.getpid()))
+    with open(path, "w") as f:
+        f.write("\n".join(ev) + "\n")
+    maxb = max([json.loads(x).get("b", 0) for x in ev if '"b":' in x] + [8])
+    r = vlib.tlc("ThreadsTrace", tcfg("ThreadsTrace_lt_%d" % os.getpid(), maxb + 2), workers=1, timeout=900, env={"TRACE": path}, coverage=False, xmx="4g")
+    os.remove(path)
+    if not (("Postcondition Accepted" in r.out and "is false" in r.out) or r.violated or r.error):
+        return len(ev), 1
+    k = max(0, r.depth - (2 if r.violated else 1))
+    e = json.loads(ev[k]) if k < len(ev) else {}
+    key = ("%s/exit/left-in-cache" % prefix if e.get("e") == "Exit" else "%s/heap/%s" % (prefix, e.get("e", "?")))
+    v.violation(key, "n=%d seed=%d event %d not explained by Threads: %s (%s)" % (n, sd, k, json.dumps(e)[:300], r.violated or "no matching step"), {"args": args, "event": e})
+    return 0, 0
+
+
 def run(v, tier, seed, replay):
     for cfg in (["Threads_bfs.cfg"] if tier == "quick" else ["Threads_bfs.cfg", "Threads_bfs3.cfg"]):
         r = vlib.tlc("Threads", cfg, timeout=1800)
